@@ -207,4 +207,58 @@ theorem resolve_odf_href_outside (href : Py.Str)
     resolve_odf_href href = pure href := by
   rw [resolve_odf_href_eq, S2T.C14.Resolve.C14_odf_outside href h]
 
+/-! ## what the OPC equalities give for the translated resolvers themselves
+
+Whatever a relationship target, an `href` or a drawing reference says, the resolvers **as the source has them now**
+answer a `/`-joined list of proper names — no empty, `.` or `..` segment survives, so the name cannot point outside
+the package — and an absolute target does not depend on the part it is written in. -/
+
+private theorem opc_normal (d t : Py.Str) :
+    ∃ segs, opcResolve d t = joinSlash segs ∧ ∀ s ∈ segs, isName s = true := by
+  unfold opcResolve
+  split
+  · exact ⟨_, rfl, S2T.C14.Resolve.norm_clean _⟩
+  · exact ⟨_, rfl, S2T.C14.Resolve.norm_clean _⟩
+
+/-- **C14 at the source level (resolved part names are normal)**: `zip_utils.resolve_part_target` (DOCX, shared) -/
+theorem resolve_part_target_normal (d t : Py.Str) :
+    ∃ segs, resolve_part_target d t = pure (joinSlash segs) ∧ ∀ s ∈ segs, isName s = true := by
+  obtain ⟨segs, h, hn⟩ := opc_normal d t
+  exact ⟨segs, by rw [resolve_part_target_is_opc, h], hn⟩
+
+/-- … the PPTX `_normalize_relative_path` -/
+theorem normalize_relative_path_normal (d t : Py.Str) :
+    ∃ segs, _normalize_relative_path d t = pure (joinSlash segs) ∧ ∀ s ∈ segs, isName s = true := by
+  obtain ⟨segs, h, hn⟩ := opc_normal d t
+  exact ⟨segs, by rw [normalize_relative_path_is_opc, h], hn⟩
+
+/-- … the XLSX drawing and image resolvers -/
+theorem xlsx_paths_normal (t drawing : Py.Str) :
+    (∃ segs, _resolve_drawing_path t = pure (joinSlash segs) ∧ ∀ s ∈ segs, isName s = true) ∧
+    (∃ segs, _resolve_image_path t drawing = pure (joinSlash segs) ∧ ∀ s ∈ segs, isName s = true) := by
+  obtain ⟨s1, h1, n1⟩ := opc_normal "xl/worksheets".toList t
+  obtain ⟨s2, h2, n2⟩ := opc_normal (dirOf drawing) t
+  exact ⟨⟨s1, by rw [resolve_drawing_path_is_opc, h1], n1⟩, ⟨s2, by rw [resolve_image_path_is_opc, h2], n2⟩⟩
+
+/-- … the EPUB `resolve_href` (OPF in a directory, OPF at the root) -/
+theorem epub_resolve_href_normal (dir href : Py.Str) :
+    (∃ segs, _EpubContext.resolve_href ⟨dir ++ ['/']⟩ href = pure (joinSlash segs) ∧ ∀ s ∈ segs, isName s = true) ∧
+    (∃ segs, _EpubContext.resolve_href ⟨[]⟩ href = pure (joinSlash segs) ∧ ∀ s ∈ segs, isName s = true) := by
+  obtain ⟨s1, h1, n1⟩ := opc_normal dir href
+  obtain ⟨s2, h2, n2⟩ := opc_normal [] href
+  exact ⟨⟨s1, by rw [epub_resolve_href_is_opc, h1], n1⟩, ⟨s2, by rw [epub_resolve_href_root_is_opc, h2], n2⟩⟩
+
+/-- **C14 at the source level (an absolute target ignores the part it is written in)** -/
+theorem resolve_part_target_absolute (d d' t : Py.Str) (ht : isAbsolute t = true) :
+    resolve_part_target d t = resolve_part_target d' t ∧ _normalize_relative_path d t = _normalize_relative_path d' t := by
+  rw [resolve_part_target_is_opc, resolve_part_target_is_opc, normalize_relative_path_is_opc,
+    normalize_relative_path_is_opc, S2T.C14.Resolve.opc_absolute d d' t ht]
+  exact ⟨rfl, rfl⟩
+
+example : isAbsolute "/ppt/media/i.png".toList = true := by decide
+example : resolve_part_target "ppt/slides".toList "../media/./i.png".toList = pure "ppt/media/i.png".toList := by
+  rw [resolve_part_target_is_opc]; exact congrArg pure (by decide +kernel)
+example : resolve_part_target "word".toList "../../../etc/passwd".toList = pure "etc/passwd".toList := by
+  rw [resolve_part_target_is_opc]; exact congrArg pure (by decide +kernel)
+
 end S2T.C14.Src
